@@ -1,6 +1,7 @@
 """C06 — every permitted cipher x hash suite runs exactly the named algorithms (also serves C09's burst==job dispatch)."""
 import os, re, sys, json
 from vlib.core import *
+from vlib.core import run as sh
 from props.ring import ARCH_FILES
 from props import l1
 
@@ -83,7 +84,7 @@ def build_variant(ctx, arch):
     init = 'init_mb_mgr_%s_internal' % arch
     gotocc(ctx, os.path.join(VERIF, 'cbmc', 'tabcell.c'), gb, defs=['-DARCH_FILE="%s"' % ARCH_FILES[arch], '-DINIT_FN=' + init], arch=arch)
     gs = os.path.join(ctx.scratch, 'tab_%s.s.gb' % arch)
-    rc, o, _, _ = run(['goto-instrument', '--generate-function-body', '(?!__CPROVER).*', '--generate-function-body-options', 'assert-false', gb, gs], timeout=300)
+    rc, o, _, _ = sh(['goto-instrument', '--generate-function-body', '(?!__CPROVER).*', '--generate-function-body-options', 'assert-false', gb, gs], timeout=300)
     if rc != 0:
         raise Inconclusive('goto-instrument --generate-function-body failed: ' + o[-400:])
     ctx.note_source('lib/' + ARCH_FILES[arch])
@@ -96,10 +97,10 @@ def run_cell(ctx, base, arch, cell, timeout=600):
     c = os.path.join(ctx.scratch, tag + '.c')
     open(c, 'w').write('const int cfg_kind=%d, cfg_mode=%d, cfg_key=%d, cfg_dir=%d, cfg_hash=%d;\n' % cell)
     g = os.path.join(ctx.scratch, tag + '.gb')
-    rc, o, _, _ = run(['goto-cc', base, c, '-o', g], timeout=120)
+    rc, o, _, _ = sh(['goto-cc', base, c, '-o', g], timeout=120)
     if rc != 0:
         raise Inconclusive('link failed: ' + o[-300:])
-    rc, out, secs, to = run(['cbmc', g] + CBMC_CELL, timeout=timeout)
+    rc, out, secs, to = sh(['cbmc', g] + CBMC_CELL, timeout=timeout)
     os.unlink(g)
     os.unlink(c)
     if to or 'VERIFICATION' not in out:
